@@ -3,6 +3,7 @@ import ElaVerif.Lemmas.Node
 import ElaVerif.Lemmas.NodeValid
 import ElaVerif.Lemmas.NodeBest
 import ElaVerif.Lemmas.NodeBestAll
+import ElaVerif.Lemmas.NodeRestart
 import ElaVerif.Gen.C12
 /-!
   C12 — the node follows the most-work valid chain.
@@ -97,6 +98,28 @@ theorem C12_best_any_order (P : Params) (g : Block) (bs ds : List Block) (hv : A
 theorem C12_allValid_inhabited (P : Params) (bs : List Block)
     (h : ∀ b ∈ bs, (∃ cb, b.txs = [cb]) ∧ b.height < P.checkRewardFrom) : AllValid P bs :=
   allValid_coinbaseOnly P bs h
+
+/-- **Most work survives a restart.** `restart` = `initChainState`: the index is rebuilt from the block rows in
+    the store — the active chain and every block that was connected once (`stored`; detached branches stay in the
+    store), with the work sums `LoadBlockNode` recomputes. If no indexed block out-weighed the tip before, none
+    does after; and the once-connected blocks are still there to be extended (the reorganisation onto such a branch
+    is what /repo 8af26abd repaired). -/
+theorem C12_restart_keeps_best (s : NState) (hi : WInv s) (hst : ∀ b ∈ s.stored, b ∈ s.known)
+    (hne : s.active ≠ []) :
+    (∀ k ∈ (restart s).known, workOf (restart s) k.id ≤ workOf (restart s) (restart s).tip.id) ∧
+    (∀ b ∈ s.stored, (restart s).isKnown b.id = true) := by
+  refine ⟨(winv_restart s hi hst hne).best, ?_⟩
+  intro b hb
+  unfold NState.isKnown
+  rw [restart_known]
+  by_cases ha : (s.active.any (·.1.id == b.id)) = true
+  · obtain ⟨p, hp, hpe⟩ := List.any_eq_true.mp ha
+    have : (onDisk s).any (·.id == b.id) = true :=
+      List.any_eq_true.mpr ⟨p.1, List.mem_append.mpr (Or.inl (List.mem_map.mpr ⟨p, hp, rfl⟩)), hpe⟩
+    simp [this]
+  · have : (onDisk s).any (·.id == b.id) = true :=
+      List.any_eq_true.mpr ⟨b, List.mem_append.mpr (Or.inr (List.mem_filter.mpr ⟨hb, by simpa using ha⟩)), by simp⟩
+    simp [this]
 
 /-- one accepted block keeps the invariant from any state that has it -/
 theorem C12_best_step (s : NState) (b : Block) (hi : WInv s) (hf : Fresh s b)
